@@ -1,5 +1,5 @@
-STREAMS = ["c07"]
-RULE = ("N in {2, 8, 24} (quick) / up to 64 (thorough) simultaneous tunnels through the real Gateway.HandleGatewayProtocol behind "
+STREAMS = ["c07", "c02"]
+RULE = ("(the C02 stream is run as well: its histories present two cookies that carry one access token and different hosts, i.e. two tunnels of one user; each must get its own token's host and address) N in {2, 8, 24} (quick) / up to 64 (thorough) simultaneous tunnels through the real Gateway.HandleGatewayProtocol behind "
         "web.EnrichContext in one in-process server, websocket and legacy transports mixed, each with its own user, cookie, token "
         "host and tagged backend; scripts include refused cookies, requests for ANOTHER tunnel's host, out-of-order data, "
         "keep-alives, close; every tunnel's responses, callback log (with the user the policy saw), accepts and bytes at its "
@@ -12,6 +12,8 @@ ASSUMPTIONS = ["connection identifiers are pairwise distinct across tunnels (the
 
 
 def nontrivial(c):
+    if c.kind in ("paa", "process", "isolation"):
+        return True
     return c.kind == "pairing" or "R=-" not in c.impl
 
 
